@@ -229,10 +229,19 @@ func PanicValue(v int) any {
 		return nil // replaced by a real nil dereference in doPanic
 	case 3:
 		return customPanic{3}
-	default:
+	case 4:
 		return http.ErrAbortHandler
+	case 5: // the error of a sub-operation with its own, shorter budget
+		return fmt.Errorf("load user: %w", context.DeadlineExceeded)
+	case 6:
+		return fmt.Errorf("inner call: %w", context.Canceled)
+	default:
+		return fmt.Errorf("read body: %w", io.EOF)
 	}
 }
+
+// NPanicValues is the number of panic values of the quantifier (0..NPanicValues-1).
+const NPanicValues = 8
 
 func doPanic(v int) {
 	if v == 2 {
@@ -254,6 +263,15 @@ func PanicIndex(p any) int {
 	case error:
 		if x == http.ErrAbortHandler {
 			return 4
+		}
+		if errors.Is(x, context.DeadlineExceeded) {
+			return 5
+		}
+		if errors.Is(x, context.Canceled) {
+			return 6
+		}
+		if errors.Is(x, io.EOF) {
+			return 7
 		}
 		if _, ok := p.(interface{ RuntimeError() }); ok {
 			return 2
@@ -377,6 +395,7 @@ type BuildOpts struct {
 	Check    bool
 	Compiled bool                 // router.WithRouteCompilation(true): static routes are served from the compiled table
 	Obs      bool                 // app world: observability (logging to io.Discard) on — c.Response is the size-tracking observability writer
+	CtorMw   []int                // app world: middleware given through app.WithMiddleware(...) at construction
 	Defaults bool                 // app world: keep the default middleware (recovery)
 	Pre      []router.HandlerFunc // router world: installed with Use before the script runs (C10: recovery)
 }
@@ -407,6 +426,9 @@ func Build(script []Op, bo BuildOpts) (w *World, err error) {
 		aopts := []app.Option{app.WithServiceName("verif"), app.WithServiceVersion("0.0.1"), app.WithRouter(ropts...)}
 		if !bo.Defaults {
 			aopts = append(aopts, app.WithoutDefaultMiddleware())
+		}
+		if len(bo.CtorMw) > 0 {
+			aopts = append(aopts, app.WithMiddleware(ahs(bo.CtorMw)...))
 		}
 		if bo.Obs {
 			aopts = append(aopts, app.WithObservability(app.WithLogging(logging.WithOutput(io.Discard))))
